@@ -2057,7 +2057,7 @@ func NewLabeledVPNIPAddrPrefix(prefix netip.Prefix, label MPLSLabelStack, rd Rou
 	}
 	return &LabeledVPNIPAddrPrefix{
 		IPAddrPrefixDefault: IPAddrPrefixDefault{
-			Prefix: prefix,
+			Prefix: prefix.Masked(),
 		},
 		Labels: label,
 		RD:     rd,
@@ -2140,7 +2140,7 @@ func NewLabeledIPAddrPrefix(prefix netip.Prefix, label MPLSLabelStack) (*Labeled
 	}
 	return &LabeledIPAddrPrefix{
 		IPAddrPrefixDefault: IPAddrPrefixDefault{
-			Prefix: prefix,
+			Prefix: prefix.Masked(),
 		},
 		Labels: label,
 	}, nil
